@@ -531,6 +531,7 @@ func runC05(r *vfw.Run) {
 	s := lr.s
 	defer s.Close()
 	lr.l.Mix.Adversarial = 6
+	lr.l.Mix.OrphanKills = true
 	lr.l.MaxTxs = 8
 	n0 := lr.nodes[0]
 	nontrivial := false
